@@ -42,6 +42,7 @@ def tasks(tier):
         ts.append(("reload d=%d" % d, "run_reload", dict(d=d)))
     ts.append(("reload uniform", "run_uniform", {}))
     ts.append(("negative volume warning", "run_warning", {}))
+    ts.append(("negative volume warning, mixed orientation", "run_warning_mixed", {}))
     ts.append(("cached arrays", "run_cache", {}))
     # the region templates take their quadrature from a default argument: one scheme object is shared by every region of that template in a
     # process, so a scheme that is altered by a query (inv(), plot()) corrupts every region built afterwards
@@ -390,6 +391,39 @@ def run_cache(col):
                         "every cached array is re-evaluated from the region's current mesh, element and quadrature (equal to a region created from them)", not bad, "%s: stale arrays %s" % (w, bad))
     finally:
         ring.ORDER_ORACLE[0] = None
+    finish_info(col, it)
+
+
+def run_warning_mixed(col):
+    """one wrongly oriented cell next to a well oriented, larger one (separate points): the sign of an expression is decided from the
+    points it mentions -- only the first cell's points: negative; anything that involves the second cell (any sum over cells): positive"""
+    import re
+
+    na = 3
+    it = new_interp()
+
+    def oracle(a, b, op):
+        if not (b.is_const() and b.const_value() == 0):
+            return None
+        ids = set(int(m) for m in re.findall(r"X\[(\d+),", ring.fmt(a, maxterms=10 ** 6)))
+        if not ids:
+            return None
+        neg = max(ids) < na
+        return {"<": neg, "<=": neg, ">": not neg, ">=": not neg}[op]
+
+    ring.ORDER_ORACLE[0] = oracle
+    try:
+        reg, mesh, el, qd = make_region(it, 2, na, 2, 2, shared=False)
+    finally:
+        ring.ORDER_ORACLE[0] = None
+    warns = [e for e in it.events if e[0] == "warn"]
+    w = method_where(it.get("felupe.region._region:Region"), "reload")
+    dV = it.getattr(reg, "dV")
+    ok_scn = all(re.findall(r"X\[(\d+),", ring.fmt(P(dV[q, 0]), maxterms=10 ** 6)) and max(int(m) for m in re.findall(r"X\[(\d+),", ring.fmt(P(dV[q, 0]), maxterms=10 ** 6))) < na for q in range(dV.shape[0]))
+    col.add("C06.O3", "scenario: the first cell's differential volumes mention its own points only", "non-degeneracy of the mixed-orientation scenario", ok_scn and dV.shape == (2, 2), "dV shape %s" % (dV.shape,))
+    col.add("C06.O3", "Region.reload warning (one wrongly oriented cell outweighed by the others)", "a warning is issued whenever some differential volume is negative -- also when the sum over the cells is positive",
+            len(warns) == 1, "%s: %d warnings" % (w, len(warns)))
+    msg = str(warns[0][1]) if warns else ""
     finish_info(col, it)
 
 
